@@ -306,13 +306,17 @@ func TestVerifC14(t *testing.T) {
 			job{c14Part{"gone-resolve", 0}, -1, 0}, job{c14Part{"gone-refire", 1}, -1, 0}, job{c14Part{"gone-refresh3", 0}, 3, 0},
 			job{c14Part{"procs-resolveB", 8}, 3, 0})
 	} else {
+		// the parts whose finding depends on something the scheduler does not control (Go's random choice among the
+		// ready cases of a select) come first: they need many executions rather than deep ones, and must not be left
+		// with the crumbs of the budget on a busy machine
+		jobs = append(jobs, job{c14Part{"gone-resolve", 0}, 2, 0}, job{c14Part{"gone-refire", 1}, 1, 0})
 		for _, k := range []string{"refresh", "resolve", "refire"} {
 			jobs = append(jobs, job{c14Part{k, 0}, 2, 0}, job{c14Part{k, 1}, 2, 0})
 		}
 		jobs = append(jobs, job{c14Part{"refresh3", 0}, 1, 0}, job{c14Part{"refresh", 4}, 2, 0}, job{c14Part{"two", 0}, 2, 0}, job{c14Part{"backlog", 0}, 1, 0},
 			job{c14Part{"pre-resolve", 0}, -1, 2}, job{c14Part{"pre-refresh3", 1}, -1, 2},
 			job{c14Part{"batch-resolve", 0}, 2, 0}, job{c14Part{"batch-refresh", 1}, 2, 0}, job{c14Part{"writers2", 0}, 2, 0},
-			job{c14Part{"gone-resolve", 0}, 2, 0}, job{c14Part{"gone-refire", 1}, 1, 0}, job{c14Part{"procs-resolveB", 8}, 2, 0})
+			job{c14Part{"procs-resolveB", 8}, 2, 0})
 	}
 	if rp := rep.ReplaySpec(); rp != nil {
 		part, _ := rp["part"].(string)
